@@ -80,6 +80,21 @@ Proof. exact run_src_eq. Qed.
 Theorem C15_src_ids_ok : forall bname store async_store h, IdsOK (run_src bname store async_store h).
 Proof. exact src_IdsOK. Qed.
 
+Theorem C15_src_delay_from_source : Connection_deadline_seconds = 60%nat /\ Connection_deadline_seconds = grace.
+Proof. exact (conj eq_refl deadline_seconds_is_grace). Qed.
+Theorem C15_src_expiry_is_refusal : forall q s, Connection_deadline_expired q s = BOk false (bad q s).
+Proof. exact Connection_deadline_expired_eq. Qed.
+Theorem C15_src_stall_then_exactly_grace : forall bname store async_store h q es,
+  let step' := step_src bname store async_store in
+  let s := run_src bname store async_store h in
+  made (conns s q) = true -> lost (conns s q) = false -> wpaused (conns s q) = false ->
+  forallb (leaves_deadline q) es = true ->
+  let s1 := fold_left step' es (step' s (PauseW q)) in
+  ((nticks es < Connection_deadline_seconds)%nat -> timer (conns s1 q) = Some (Connection_deadline_seconds - nticks es)%nat) /\
+  (nticks es = (Connection_deadline_seconds - 1)%nat ->
+     closing (conns (step' s1 Tick) q) = true /\ timer (conns (step' s1 Tick) q) = None).
+Proof. exact src_stall_then_exactly_grace. Qed.
+
 Print Assumptions C15_timer_frame.
 Print Assumptions C15_stall_starts_full_period.
 Print Assumptions C15_drain_cancels.
@@ -91,3 +106,6 @@ Print Assumptions C15_deadline_counts_ticks.
 Print Assumptions C15_stall_then_exactly_grace.
 Print Assumptions C15_src_run_is_model.
 Print Assumptions C15_src_ids_ok.
+Print Assumptions C15_src_delay_from_source.
+Print Assumptions C15_src_expiry_is_refusal.
+Print Assumptions C15_src_stall_then_exactly_grace.
